@@ -6,7 +6,6 @@ import (
 	"bytes"
 	"encoding/json"
 	"fmt"
-	"sort"
 	"strings"
 	"sync"
 
@@ -169,6 +168,19 @@ func (p *c16) ExtraEvidence(tier string, counters map[string]int64) map[string]a
 		m["corpus_error"] = corpusErr
 	}
 	return m
+}
+
+// CrashSignature: a child that died (fatal error outside recover, e.g. stack exhaustion) while running a case
+func (p *c16) CrashSignature(c fw.Case, stderr string) (string, string, any) {
+	first := ""
+	for _, l := range strings.Split(stderr, "\n") {
+		if strings.TrimSpace(l) != "" {
+			first = clip(strings.TrimSpace(l), 200)
+			break
+		}
+	}
+	return "fatal|migrate-or-read|" + fw.InnermostFrame(stderr) + "|" + fw.PanicKind(first), "child process died with a runtime fatal error while handling a definition: " + first,
+		map[string]any{"case": c.ID(), "stderr": clip(stderr, 3000)}
 }
 
 func (p *c16) WorkerInit(tier string, seed int64) {
@@ -509,14 +521,4 @@ func (p *c16) runRand(c fw.Case, ck *checker, r *fw.Rand) {
 	fr.randomFaults(r, st, n)
 	res.Fingerprint = fmt.Sprintf("rand:%s:%x", label, fw.Hash64(string(data)))
 	res.NonTrivial = fr.plaus > 0
-}
-
-// sorted list of distinct strings (helper for samples)
-func sortedSet(m map[string]bool) []string {
-	out := make([]string, 0, len(m))
-	for k := range m {
-		out = append(out, k)
-	}
-	sort.Strings(out)
-	return out
 }
